@@ -319,6 +319,10 @@ class Fn:
                                          " ".join(args) + (" " if args else ""), rty)
         return "/-- `%s` -/\n%s\n%s\n" % (self.key, head, ind(body, 2))
 
+    def custom_iter(self, nm, init, env):
+        """hook: a profile may bind an iterator over one of its own containers; returns True when it did"""
+        return False
+
     # ------------------------------------------------------------------ helpers
     def flatten(self, n):
         if n is None:
@@ -813,6 +817,8 @@ class Fn:
                 return pre, "(Cxx.nth %s %s)" % (oc, a[0][0]), "bytes"
             if nm == "first" and not a:
                 return pre, "(Cxx.nth %s 0)" % oc, "bytes"
+            if nm == "last" and not a:
+                return pre, "(Cxx.last %s)" % oc, "bytes"
             if nm == "takeFirst" and not a:
                 o0 = strip(objn)
                 vn = o0.get("referencedDecl", {}).get("name")
@@ -896,8 +902,23 @@ class Fn:
             else:
                 info = self.ctx.need_free(nm)
             ps = info["params"]
+            if info.get("actenv") is not None:
+                real = [x for x in real if "Socket *" not in qt(x) and "Socket *" not in qt(strip(x))]      # the socket is the state / the environment
             if len(real) != len(ps):
                 raise Untranslatable("call to %s with default arguments" % nm)
+            if info.get("actstate"):
+                # a file-scope helper that acts on the socket: the action list goes through it
+                pre, vals = [], []
+                for an, (cn, ln, pt, _) in zip(real, ps):
+                    p, c, t = self.ex(an, env)
+                    if t != pt:
+                        raise Untranslatable("argument %s of %s: %s for %s" % (cn, nm, t, pt))
+                    pre += p; vals.append(c)
+                call = "%s %ss%s" % (info["name"], self.env_args(), "".join(" " + v for v in vals))
+                if info["ret"] == "void":
+                    return pre + ["let s := %s" % call], "()", "void"
+                t = self.ctx.fresh()
+                return pre + ["let (s, %s) := %s" % (t, call)], t, info["ret"]
             pre, vals, outs = [], [], []
             for an, (cn, ln, pt, _) in zip(real, ps):
                 if cn in info["inouts"]:
@@ -914,6 +935,8 @@ class Fn:
             if info["fuel"]:
                 self.needs_fuel = True
                 vals.insert(0, "fuel")
+            if info.get("actenv"):
+                vals.insert(0, self.env_args().strip())
             call = "%s%s" % (info["name"], "".join(" " + v for v in vals))
             if not outs:
                 return pre, "(%s)" % call, info["ret"]
@@ -983,6 +1006,8 @@ class Fn:
                 init = kids(v)
                 if "iterator" in qt(v) and init:
                     b0 = strip(init[0])
+                    if self.custom_iter(nm, b0, env):
+                        continue
                     if b0.get("kind") == "CXXMemberCallExpr" and strip(kids(b0)[0]).get("name") in ("constBegin", "begin", "cbegin", "constEnd", "end", "cend"):
                         pm, cm, tm = self.ex(kids(strip(kids(b0)[0]))[0], env)
                         if tm == "hmap" and not pm:
@@ -2010,10 +2035,81 @@ def translate_fs(repo, exp):
 
 
 
+class ActionProfile:
+    """shared by the profiles whose state is a list of actions on the socket (Auth, Slot): iterators over the profile's
+    own QMap (`constFind` / `constEnd` / `value()`), file-scope helpers that are handed the socket (`Socket *`: the action
+    list goes through them; `const Socket *`: they only ask), the environment passed to pure helpers."""
+    MAP_VALUE_TY = "bytes"
+
+    def init_action_profile(self, ctx, key):
+        raw, _, _ = ctx.sig(key)
+        pds = [c for c in kids(ctx.decls[key]) if c.get("kind") == "ParmVarDecl"]
+        mut_socket = any("Socket *" in qt(p) and "const" not in qt(p).split("Socket")[0] for p in pds)
+        self.params = [p for p in self.params if not p[2].startswith("?")]
+        if key.startswith("::"):
+            if mut_socket:
+                self.free = False
+                self.const = False
+                self.inouts = []
+                if ctx.inout.get(key):
+                    raise Untranslatable("helper with the socket and reference parameters")
+        self.act_state = key.startswith("::") and mut_socket
+
+    def finish_info(self):
+        self.info["actenv"] = bool(self.free)            # pure helper: the environment is its first argument
+        self.info["actstate"] = bool(self.act_state)
+
+    def map_contains(self, key):
+        raise NotImplementedError
+
+    def map_value(self, key):
+        raise NotImplementedError
+
+    def custom_iter(self, nm, b0, env):
+        if b0.get("kind") == "CXXMemberCallExpr" and strip(kids(b0)[0]).get("name") in ("constFind", "find") and \
+                self.obj_path(kids(strip(kids(b0)[0]))[0]) == "map":
+            real0 = [x for x in kids(b0)[1:] if x.get("kind") != "CXXDefaultArgExpr"]
+            if len(real0) == 1:
+                pk, ck, tk = self.ex(real0[0], env)
+                if not pk:
+                    env[nm] = (("mfind", ck), "iter")
+                    return True
+        return False
+
+    def map_iter_ex(self, n0, env):
+        """comparisons of a map iterator with end(), `it.value()`, `*it`; None when `n0` is something else"""
+        def is_end(x):
+            x = strip(x)
+            return x.get("kind") == "CXXMemberCallExpr" and strip(kids(x)[0]).get("name") in ("constEnd", "end", "cend") and \
+                self.obj_path(kids(strip(kids(x)[0]))[0]) == "map"
+        def it_of(x):
+            vn = strip(x).get("referencedDecl", {}).get("name")
+            return env[vn][0][1] if vn in env and env[vn][1] == "iter" and env[vn][0][0] == "mfind" else None
+        if n0.get("kind") == "CXXOperatorCallExpr":
+            ks = kids(n0)
+            opn = strip(ks[0]).get("referencedDecl", {}).get("name", "")
+            if opn in ("operator==", "operator!=") and len(ks) == 3:
+                for a0, b0 in ((ks[1], ks[2]), (ks[2], ks[1])):
+                    k = it_of(a0)
+                    if k is not None and is_end(b0):
+                        c = self.map_contains(k)
+                        return [], c if opn == "operator!=" else "(!%s)" % c, "bool"
+            if opn == "operator*" and len(ks) == 2 and it_of(ks[1]) is not None:
+                return [], self.map_value(it_of(ks[1])), self.MAP_VALUE_TY
+        if n0.get("kind") == "CXXMemberCallExpr":
+            callee = strip(kids(n0)[0])
+            if callee.get("kind") == "MemberExpr" and callee.get("name") == "value" and kids(callee) and \
+                    not [x for x in kids(n0)[1:] if x.get("kind") != "CXXDefaultArgExpr"]:
+                k = it_of(kids(callee)[0])
+                if k is not None:
+                    return [], self.map_value(k), self.MAP_VALUE_TY
+        return None
+
+
 AUTH_WANTED = ["BasicAuthMiddleware::verify", "BasicAuthMiddleware::process", "LocalAuthMiddleware::process"]
 
 
-class AuthFn(Fn):
+class AuthFn(ActionProfile, Fn):
     """`BasicAuthMiddleware::process` / `verify` over the vocabulary of `Qhttp/Model/AxPrim.lean`: the middleware's
     map and realm and the request's headers are the environment `ae`, a QString is its UTF-8 encoding (the round
     trip through QString is `ae.round`), what happens on the socket is a list of actions."""
@@ -2022,9 +2118,20 @@ class AuthFn(Fn):
         self.state_ty = "List Ax.Act"
         self.env_sig = "(ae : Ax.Env) "
         self.uses_env = True
-        self.params = [p for p in self.params if not p[2].startswith("?")]          # Socket *socket
+        self.init_action_profile(ctx, key)
         if key.endswith("::verify"):
             self.const = True
+
+    def translate(self):
+        text = Fn.translate(self)
+        self.finish_info()
+        return text
+
+    def map_contains(self, key):
+        return "(Ax.mapContains ae.table %s)" % key
+
+    def map_value(self, key):
+        return "(Ax.mapValue ae.table %s)" % key
 
     def member(self, n):
         n = strip(n)
@@ -2067,6 +2174,9 @@ class AuthFn(Fn):
             return [], "ae.tokenHeader", "bytes"
         if n0.get("kind") == "MemberExpr" and self.member(n0) == "token":
             return [], "ae.token", "bytes"
+        r = self.map_iter_ex(n0, env)
+        if r is not None:
+            return r
         if n0.get("kind") == "CXXOperatorCallExpr":
             ks = kids(n0)
             opn = strip(ks[0]).get("referencedDecl", {}).get("name", "")
@@ -2101,6 +2211,8 @@ class AuthFn(Fn):
             if obj == "socket":
                 pre, a = self.args(real, env)
                 tys = [t for _, t in a]
+                if nm == "headers" and not a:
+                    return [], "ae.hdrs", "hmap"
                 if nm == "setHeader" and tys == ["bytes", "bytes"]:
                     return pre + ["let s := Ax.setHeader s %s %s" % (a[0][0], a[1][0])], "()", "void"
                 if nm == "writeError" and tys == ["int"]:
@@ -2186,7 +2298,8 @@ def translate_auth(repo, exp):
         helpers = [ctx.done[k]["name"] for k in ctx.order if k not in AUTH_WANTED]
         out.append("end QhttpGen.Auth\n")
         if helpers:
-            out.append("macro \"unfold_auth_helpers\" : tactic => `(tactic| try simp only [%s] at *)\n" % ", ".join("QhttpGen.Auth." + h for h in helpers))
+            # (`delta`, not `simp only`: a helper may occur inside the `Decidable` instance of an `if`, where `simp only` leaves it folded)
+            out.append("macro \"unfold_auth_helpers\" : tactic => `(tactic| (%s; try simp only [] at *))\n" % "; ".join("(try delta QhttpGen.Auth.%s at *)" % h for h in helpers))
         else:
             out.append("macro \"unfold_auth_helpers\" : tactic => `(tactic| skip)\n")
         return "\n".join(out), done, failed
@@ -2197,7 +2310,9 @@ def translate_auth(repo, exp):
 SLOT_WANTED = ["QObjectHandler::process"]
 
 
-class SlotFn(Fn):
+class SlotFn(ActionProfile, Fn):
+    MAP_VALUE_TY = "reg"
+
     """`QObjectHandler::process`: which of 404 / invoke now / invoke at end-of-body happens, over the registry and the two
     questions asked of the socket (`Qhttp/Model/SxPrim.lean`)."""
     def __init__(self, ctx, key):
@@ -2205,7 +2320,18 @@ class SlotFn(Fn):
         self.state_ty = "List Sx.Act"
         self.env_sig = "(se : Sx.Env) "
         self.uses_env = True
-        self.params = [p for p in self.params if not p[2].startswith("?")]          # Socket *socket
+        self.init_action_profile(ctx, key)
+
+    def translate(self):
+        text = Fn.translate(self)
+        self.finish_info()
+        return text
+
+    def map_contains(self, key):
+        return "(Sx.mapContains se.regs %s)" % key
+
+    def map_value(self, key):
+        return "(Sx.mapValue se.regs %s)" % key
 
     def member(self, n):
         n = strip(n)
@@ -2245,6 +2371,9 @@ class SlotFn(Fn):
             p, c, t = self.ex(kids(n0)[0], env)
             if t == "reg":
                 return p, "%s.readAll" % c, "bool"
+        r = self.map_iter_ex(n0, env)
+        if r is not None:
+            return r
         return Fn.ex(self, n, env)
 
     def invoke_arg(self, n, env):
@@ -2341,7 +2470,8 @@ def translate_slot(repo, exp):
     helpers = [ctx.done[k]["name"] for k in ctx.order if k not in SLOT_WANTED]
     out.append("end QhttpGen.Slot\n")
     if helpers:
-        out.append("macro \"unfold_slot_helpers\" : tactic => `(tactic| try simp only [%s] at *)\n" % ", ".join("QhttpGen.Slot." + h for h in helpers))
+        # (`delta`, not `simp only`: a helper may occur inside the `Decidable` instance of an `if`, where `simp only` leaves it folded)
+        out.append("macro \"unfold_slot_helpers\" : tactic => `(tactic| (%s; try simp only [] at *))\n" % "; ".join("(try delta QhttpGen.Slot.%s at *)" % h for h in helpers))
     else:
         out.append("macro \"unfold_slot_helpers\" : tactic => `(tactic| skip)\n")
     return "\n".join(out), done, failed
